@@ -297,8 +297,79 @@ class Gen:
     def _regression(self):
         """shapes + scripted first ops taken from the `fixed: property=C08` lines (each line's named cases)"""
         r = self.rng
-        which = r.choice(["frame-empty-part", "pile-unselectable-any-key", "cache-lost-dependency", "grid-focus-on-empty-cell", "overlay-top-replaced", "grid-selectable-after-edit"])
+        which = r.choice(
+            ["frame-empty-part", "pile-unselectable-any-key", "cache-lost-dependency", "grid-focus-on-empty-cell", "overlay-top-replaced", "grid-selectable-after-edit"]
+            + ["listbox-emptied-after-set-focus"] * 2
+            + ["slice-assign-from-iterator"] * 2
+        )
         self.directed = which
+        if which == "listbox-emptied-after-set-focus":
+            # f5c5690: set_focus() is deferred; the walker is emptied (or loses the old focus item) before the next
+            # render / keypress / mouse_event, at several sizes, every walker flavour, with and without a first render
+            k = r.randint(2, 5)
+            items = [self._plain("flow", r.random() < 0.6, r.choice([1, 1, 2])) for _ in range(k)]
+            start = r.choice([None, 0, k - 1])
+            lb = {"k": "list", "mode": "box", "cid": self._newcid(), "ch": [[c, None] for c in items], "walker": r.choice(["sflw", "slw", "plain"]), "focus": start}
+            cur = start or 0
+            new = r.choice([i for i in range(k) if i != cur])
+            sc = [["render", r.randrange(4)]] if r.random() < 0.6 else []
+            sc.append(["focus", lb["cid"], new, r.choice(["prop", "set_focus", "walker"])])
+            if r.random() < 0.7:
+                sc.append(["clear", lb["cid"], r.choice(["clear", "delall", "assign"])])
+            else:
+                sc.append(["del", lb["cid"], cur, r.choice(["del", "pop", "remove"])])
+            tail = [["render", r.randrange(4)], ["key", r.choice(["x", "up", "down", "page down", "home"])], ["mouse", r.randrange(20), r.randrange(8)]]
+            r.shuffle(tail)
+            sc += tail + [["render", r.randrange(4)], ["key", "x"]]
+            self.script = sc
+            wrapk = r.random()
+            if wrapk < 0.5:
+                return lb
+            if wrapk < 0.75:
+                return {"k": "frame", "mode": "box", "cid": self._newcid(), "body": lb, "header": self._plain("flow", False), "footer": None, "fp": "body"}
+            return {"k": "pile", "mode": "box", "cid": self._newcid(), "ch": [[self._plain("flow", True), ["pack"]], [lb, ["weight", 1]]], "focus": 1}
+        if which == "slice-assign-from-iterator":
+            # c77b924: slice assignment / extend from one-shot iterators at every slice position relative to the focus
+            kind = r.choice(["pile", "cols", "grid", "list"])
+            k = r.randint(3, 5)
+            fpos = r.choice([0, k - 1, k // 2])
+            its = ["gen", "iter", "map", "reversed"]
+            if kind == "list":
+                c = {"k": "list", "mode": "box", "cid": self._newcid(), "ch": [[self._plain("flow", True), None] for _ in range(k)], "walker": r.choice(["sflw", "sflw", "slw"]), "focus": fpos}
+                opt = None
+            elif kind == "grid":
+                c = {"k": "grid", "mode": "box", "cid": self._newcid(), "ch": [[self._plain("flow", True), None] for _ in range(k)], "cw": 3, "hs": 1, "vs": 0, "align": "left", "focus": fpos, "wrap": "filler"}
+                opt = None
+            elif kind == "cols":
+                c = {"k": "cols", "mode": "box", "cid": self._newcid(), "ch": [[self._plain("box", True), ["weight", 1]] for _ in range(k)], "div": 0, "focus": fpos}
+                opt = ["weight", 1]
+            else:
+                c = {"k": "pile", "mode": "box", "cid": self._newcid(), "ch": [[self._plain("box", True), ["weight", 1]] for _ in range(k)], "focus": fpos}
+                opt = ["weight", 1]
+            lm = "flow" if kind in ("list", "grid") else "box"
+            where = r.choice(["before", "contains", "after", "append", "all"])
+            if where == "before" and fpos > 0:
+                a = r.randrange(0, fpos)
+                b = r.randint(a, fpos)
+            elif where == "after" and fpos < k - 1:
+                a = r.randint(fpos + 1, k)
+                b = r.randint(a, k)
+            elif where == "append":
+                a = b = k
+            elif where == "all":
+                a, b = 0, k
+            else:
+                a = r.randint(0, fpos)
+                b = r.randint(fpos + 1, k)
+            new = [[self._plain(lm, r.random() < 0.7), opt] for _ in range(r.randint(1, 3))]
+            sc = [["render", 0]] if r.random() < 0.5 else []
+            sc.append(["slice", c["cid"], a, b, new, "set", r.choice(its)])
+            sc += [["render", 0], ["key", r.choice(["down", "right", "x"])]]
+            sc.append(["ins", c["cid"], 0, [self._plain(lm, True), opt], r.choice(["extend", "iadd"]), r.choice(its)])
+            sc.append(["assign", c["cid"], [[self._plain(lm, True), opt] for _ in range(2)], r.choice(["slice", "setter"]), r.choice(its)])
+            sc.append(["render", 0])
+            self.script = sc
+            return c
         ec = lambda: r.choice([  # noqa: E731  an empty flow container
             {"k": "pile", "mode": "flow", "cid": self._newcid(), "ch": [], "focus": None},
             {"k": "cols", "mode": "flow", "cid": self._newcid(), "ch": [], "div": 0, "focus": None},
@@ -371,7 +442,7 @@ class Gen:
         self.navbias = None
         self.script = None
         self.directed = None
-        if r.random() < 0.08:
+        if r.random() < 0.12:
             return self._regression()
         if r.random() < 0.15:
             t = self._form()
